@@ -1,3 +1,4 @@
+import LayerModel.Base.Bytes
 /-
   Model of x/oracle/keeper/weighted_median.go and weighted_mode.go.
 
@@ -31,11 +32,8 @@ structure Aggregate where
 
 /-! ### `new(big.Int).SetString(s, 16)` -/
 
-def hexDigit? (c : Char) : Option Nat :=
-  if '0' ≤ c ∧ c ≤ '9' then some (c.toNat - '0'.toNat)
-  else if 'a' ≤ c ∧ c ≤ 'f' then some (c.toNat - 'a'.toNat + 10)
-  else if 'A' ≤ c ∧ c ≤ 'F' then some (c.toNat - 'A'.toNat + 10)
-  else none
+/-- one hex digit (shared with `hex.DecodeString`'s model) -/
+def hexDigit? (c : Char) : Option Nat := Layer.Bytes.nibble? c
 
 def hexNat? : List Char → Option Nat
   | [] => none
@@ -49,8 +47,15 @@ def parseHex (s : String) : Option Int :=
   | '+' :: cs => (hexNat? cs).map Int.ofNat
   | cs => (hexNat? cs).map Int.ofNat
 
+/-- `regtypes.Remove0xPrefix` -/
+def strip0x (s : String) : String :=
+  match s.toList with
+  | '0' :: 'x' :: rest => String.ofList rest
+  | '0' :: 'X' :: rest => String.ofList rest
+  | _ => s
+
 /-- value used for ordering (callers check parsability first) -/
-def val (r : Report) : Int := (parseHex r.value).getD 0
+def val (r : Report) : Int := (parseHex (strip0x r.value)).getD 0
 
 /-- Go `int64(x)` for a `uint64` -/
 def i64 (p : Nat) : Int := if p % 2^64 < 2^63 then (p % 2^64 : Nat) else (p % 2^64 : Nat) - 2^64
@@ -75,12 +80,12 @@ def sortByVal (rs : List Report) : List Report :=
 
 /-- `WeightedMedian`; `none` = the error "failed to parse value". -/
 def weightedMedian (rs : List Report) : Option Aggregate :=
-  if rs.all (fun r => (parseHex r.value).isSome) then
+  if rs.all (fun r => (parseHex (strip0x r.value)).isSome) then
     let s := sortByVal rs
     let total := sumI s
     let reps := s.map toAggReporter
     match pick total 0 0 s with
-    | some (i, r) => some { value := r.value, reporter := r.reporter, power := u64 total, index := i,
+    | some (i, r) => some { value := strip0x r.value, reporter := r.reporter, power := u64 total, index := i,
                             microHeight := r.block, reporters := reps }
     | none => some { reporters := reps }
   else none
@@ -109,7 +114,7 @@ def mkMode (rs : List Report) (mode : String) : Aggregate :=
   let total := ((rs.map (·.power)).sum) % 2^64
   let reps := rs.map toAggReporter
   match modeReporterScan mode (0, none) 0 rs with
-  | some (i, r) => { value := r.value, reporter := r.reporter, power := total, index := i,
+  | some (i, r) => { value := strip0x r.value, reporter := r.reporter, power := total, index := i,
                      microHeight := r.block, reporters := reps }
   | none => { power := total, reporters := reps }
 
